@@ -288,6 +288,10 @@ func (this *DatasetManager) processSnapshot(data []byte) error {
 			return err
 		}
 		if existing, exists := previous[id]; exists {
+			// Replica sets may have changed while this node was behind
+			if err := existing.syncPartitionNodes(dataset.GetPartitions()); err != nil {
+				return err
+			}
 			this.datasets[id] = existing
 			delete(previous, id)
 			continue
